@@ -54,6 +54,15 @@ direct and Ptychography-level thickness assignment, probe model swap with anothe
 switch, a forward pass, a zero-iteration reconstruct) is applied and mirrored in a small reference model; the final state is
 judged against the simulator evaluated at the final configuration: "the prediction depends on the current configuration only".
 
+Refused requests (third part): ~86 invalid arguments to the public setters / configuration calls (zero, negative, ill-typed,
+ill-shaped thicknesses as scalar / list / ndarray / tensor on the Ptychography object and on the object model; ill-shaped probe,
+positions, descan, masks; unknown probe parameters, constraints, loss type, optimizer; invalid batch size, padding, validation
+ratio; ill-formed models ...), each refused by the reference tree, are placed in histories (alone, in pairs with each other and
+with the valid events, thorough: triples).  The request must leave everything the forward model uses untouched: judged right
+after the refusal and again after compute_propagator_arrays() + preprocess(same arguments) + reconstruct(num_iters=0).
+Class {"relation": "refused_request_changes_nothing", "op": <member>, "what": ...}; the responsible member is found by
+re-running prefixes.  A member that the tree under test accepts is counted, not flagged.
+
 Stated limit. `com_fit_function="constant"` shifts every pattern by the data-dependent mean centre of mass
 with sinc interpolation; "zero to numerical precision" is only defined when that is an integer pixel.  It
 is provably the detector centre for vacuum data of a centro-symmetric aperture that stays below Nyquist, so
@@ -89,7 +98,9 @@ CLAIM = (
     "equal independently computed ones, are not moved by a forward pass, and patch origin + fractional probe shift = position "
     "for every pattern. Probe modes installed in every order give the same predictions and are read back with each shape attached "
     "to its own weight. On one instance, after every history of up to 2 (quick) / 3 (thorough) reconfiguration events, the "
-    "prediction equals the simulator at the final configuration (no stale propagators, probes or targets). Exploration is the right level: the property quantifies over configurations and "
+    "prediction equals the simulator at the final configuration (no stale propagators, probes or targets); about 86 invalid requests "
+    "to the public setters / configuration calls, alone and combined with each other and with the valid events, are refused without "
+    "changing anything the forward model uses, also after derived state is rebuilt. Exploration is the right level: the property quantifies over configurations and "
     "batch schedules, which are enumerated completely; array contents are seeded alphabet members."
 )
 NOTE = (
@@ -105,7 +116,9 @@ RULE = (
     "computed object grid has a zero-length axis are excluded and counted. A point is non-trivial when it is not excluded; "
     "distinct outcomes are distinct (object shape, adjusted padding, J, wrap-around, fractional) geometry signatures. "
     "Reconfiguration part: every sequence of length 0..d over the 8-event alphabet on each base configuration, one fresh "
-    "instance per sequence, reference model stepped alongside, final state judged; outcomes are distinct final configurations."
+    "instance per sequence, reference model stepped alongside, final state judged; outcomes are distinct final configurations. "
+    "Refused requests: every member alone, pairs over the core members and with the valid events (thorough: plus triples over six "
+    "core members and the valid events), on 3 (quick) / 4 (thorough) base configurations incl. a single-slice one."
 )
 
 # ----------------------------------------------------------------------------- tolerances
@@ -539,13 +552,14 @@ HISTORY_BASES = [
     dict(obj_type="complex", slices=2, modes=1, roi=[8, 10], scan=[2, 2], step="fractional", pad=[3, 5]),
     dict(obj_type="potential", slices=3, modes=2, roi=[8, 8], scan=[2, 3], step="fractional", pad=[3, 5]),
     dict(obj_type="pure_phase", slices=2, modes=2, roi=[10, 8], scan=[2, 2], step="commensurate", pad=[3, 5]),
+    dict(obj_type="complex", slices=1, modes=2, roi=[8, 10], scan=[2, 2], step="fractional", pad=[3, 5]),  # refused-request family only
 ]
 
 
 def history_setup(base):
     """Thickness sets A (build), B (data), C (other slice count) and the other slice / mode counts of a base configuration."""
     S0 = base["slices"]
-    S1 = 3 if S0 == 2 else 2
+    S1 = 3 if S0 == 2 else 2  # (a single-slice base gets 2)
     A = [60.0 + 30.0 * s for s in range(S0 - 1)]
     B = [35.0 + 95.0 * s for s in range(S0 - 1)]
     C = [80.0 + 45.0 * s for s in range(S1 - 1)]
@@ -556,13 +570,176 @@ def history_setup(base):
 
 def history_items(tier):
     depth = 2 if tier == "quick" else 3
-    bases = HISTORY_BASES[:2] if tier == "quick" else HISTORY_BASES
+    bases = HISTORY_BASES[:2] if tier == "quick" else HISTORY_BASES[:3]
     items = []
     for b, base in enumerate(bases):
         for n in range(depth + 1):
             for h in itertools.product(range(len(HISTORY_EVENTS)), repeat=n):
                 items.append({"index": len(items), "base": b, "history": [HISTORY_EVENTS[e] for e in h]})
     return items, depth, len(bases)
+
+
+# ----------------------------------------------------------------------------- refused requests
+# "A refused request changes nothing the forward model uses."  Invalid arguments to the public setters / configuration calls
+# that the history alphabet uses.  Every member below is REFUSED (raises) by the tree this check was written against; members
+# that it accepts were left out on purpose (NaN thicknesses, negative padding, an ill-shaped object array).  At run time a
+# member that does NOT raise is counted (`refused_ops_accepted_by_this_tree`) and the history is not judged: what the tree
+# accepts is not this family's business.  After a refusal the reference model is unchanged; the final state is judged twice:
+# immediately, and after a follow-up that forces derived state to be rebuilt (compute_propagator_arrays(), preprocess() with
+# the same arguments, reconstruct(num_iters=0)).  Ill-shaped arguments are built against the CURRENT slice / mode counts.
+_BAD_THICKNESS = ("zero_scalar", "neg_scalar", "neg_int", "list_neg", "list_zero", "ndarray_neg", "tensor_neg", "wrong_length", "string", "list_str", "2d")
+REFUSED_OPS = tuple(
+    [f"ptycho.slice_thicknesses={k}" for k in _BAD_THICKNESS] + [f"obj_model.slice_thicknesses={k}" for k in _BAD_THICKNESS] + [
+        "probe_setter:extra_mode", "probe_setter:wrong_roi", "probe_setter:4d", "probe_setter:string", "probe_setter:none",
+        "probe_params:unknown_key", "probe_params:bad_aberration", "probe_params:not_dict", "probe_tilt:len3",
+        "probe_model.num_probes=0", "probe_model.roi_shape=0", "probe_model.roi_shape=len3", "probe_model.reciprocal_sampling=len3",
+        "probe_model.mean_diffraction_intensity=-1", "dset.mean_diffraction_intensity=-1",
+        "dset.scan_positions_px:wrong_shape", "dset.scan_positions_px:3cols", "dset.scan_positions_px:string", "dset.descan_shifts:wrong_shape",
+        "dset.detector_mask:wrong_shape", "dset.diffraction_padding:len3", "dset.probe_energy=-1", "dset.verbose=-1",
+        "ptycho.obj_padding_px:len3", "ptycho.obj_padding_px:string", "preprocess:obj_padding_len3", "preprocess:val_ratio=1.5",
+        "preprocess:val_mode=bogus", "preprocess:batch_size=0", "ptycho.val_ratio=2", "ptycho.val_mode=bogus", "ptycho.batch_size=0",
+        "ptycho.batch_size=-3", "ptycho.batch_size=str", "ptycho.verbose=-1", "ptycho.device=tpu", "ptycho.propagators:wrong_shape",
+        "ptycho.obj_fov_mask:4d", "ptycho.constraints:unknown_category", "ptycho.constraints:unknown_object_key",
+        "ptycho.constraints:unknown_probe_key", "ptycho.constraints:not_dict", "ptycho.set_obj_type(bogus)", "obj_model.obj_type=bogus",
+        "obj_model.sampling=negative", "obj_model.sampling=len3", "obj_model.mask:4d", "ptycho.obj_model=not_a_model",
+        "ptycho.probe_model=not_a_model", "ptycho.probe_model=wrong_roi_model", "ptycho.detector_model=not_a_model", "ptycho.dset=not_a_dataset",
+        "ptycho.logger=not_a_logger", "object_model:thickness_count_mismatch", "object_model:negative_thickness",
+        "reconstruct:loss_type=bogus", "reconstruct:batch_size=0", "reconstruct:batch_size=-2", "reconstruct:optimizer_params=unknown_key",
+        "reconstruct:optimizer_type=bogus", "reconstruct:scheduler_params=unknown_type", "reconstruct:constraints=unknown_category",
+        "reconstruct:device=tpu", "reconstruct:unknown_kw",
+    ]
+)
+# one or two members per setter / call: the alphabet of the pairs; the first six also of the thorough triples
+REFUSED_CORE = (
+    "ptycho.slice_thicknesses=list_neg", "obj_model.slice_thicknesses=neg_scalar", "probe_setter:wrong_roi", "ptycho.probe_model=wrong_roi_model",
+    "dset.scan_positions_px:wrong_shape", "reconstruct:loss_type=bogus",
+    "obj_model.slice_thicknesses=tensor_neg", "ptycho.slice_thicknesses=zero_scalar", "probe_params:unknown_key", "dset.descan_shifts:wrong_shape",
+    "ptycho.obj_padding_px:len3", "preprocess:obj_padding_len3", "ptycho.constraints:unknown_object_key", "reconstruct:batch_size=0",
+    "object_model:thickness_count_mismatch",
+)
+REFUSED_BASES = {"quick": (0, 1, 3), "thorough": (0, 1, 2, 3)}
+
+
+def refused_call(pr, op):
+    """Issue the invalid request `op` on the live instance. Returns 'raised:<Type>', 'accepted' or 'not_applicable'."""
+    import torch
+
+    from quantem.diffractive_imaging.object_models import ObjectPixelated
+    from quantem.diffractive_imaging.probe_models import ProbePixelated
+
+    pt = pr.ptycho
+    S, M, J = int(pt.num_slices), int(pt.num_probes), pr.num_patterns
+    R, C = (int(v) for v in pr.geo.roi)
+    H, W = (int(v) for v in pr.geo.obj_shape)
+    n = max(S - 1, 1)
+    pad = tuple(pr.cfg["pad"])
+    kw = dict(plot_rotation=False, plot_com=False)
+    thick = {"zero_scalar": 0.0, "neg_scalar": -5.0, "neg_int": -3, "list_neg": [-5.0] + [10.0] * (n - 1), "list_zero": [0.0] * n,
+             "ndarray_neg": np.array([20.0] * (n - 1) + [-1.0]), "tensor_neg": torch.tensor([20.0] * (n - 1) + [-1.0]),
+             "wrong_length": [10.0] * (n + 2), "string": "thick", "list_str": ["a"] * n, "2d": np.ones((n, 2))}
+    target, _, arg = op.partition("=") if "slice_thicknesses=" in op else (op, "", "")
+    if arg in thick and target in ("ptycho.slice_thicknesses", "obj_model.slice_thicknesses"):
+        holder = pt if target.startswith("ptycho") else pt.obj_model
+        call = lambda: setattr(holder, "slice_thicknesses", thick[arg])  # noqa: E731
+    else:
+        table = {
+            "probe_setter:extra_mode": lambda: setattr(pt.probe_model, "probe", np.ones((M + 1, R, C), np.complex64)),
+            "probe_setter:wrong_roi": lambda: setattr(pt.probe_model, "probe", np.ones((M, R + 2, C), np.complex64)),
+            "probe_setter:4d": lambda: setattr(pt.probe_model, "probe", np.ones((1, M, R, C), np.complex64)),
+            "probe_setter:string": lambda: setattr(pt.probe_model, "probe", "probe"),
+            "probe_setter:none": lambda: setattr(pt.probe_model, "probe", None),
+            "probe_params:unknown_key": lambda: setattr(pt.probe_model, "probe_params", {"bogus": 1.0}),
+            "probe_params:bad_aberration": lambda: setattr(pt.probe_model, "probe_params", {"C10": "x"}),
+            "probe_params:not_dict": lambda: setattr(pt.probe_model, "probe_params", 5),
+            "probe_tilt:len3": lambda: setattr(pt.probe_model, "probe_tilt", (1.0, 2.0, 3.0)),
+            "probe_model.num_probes=0": lambda: setattr(pt.probe_model, "num_probes", 0),
+            "probe_model.roi_shape=0": lambda: setattr(pt.probe_model, "roi_shape", (0, 0)),
+            "probe_model.roi_shape=len3": lambda: setattr(pt.probe_model, "roi_shape", (8, 8, 8)),
+            "probe_model.reciprocal_sampling=len3": lambda: setattr(pt.probe_model, "reciprocal_sampling", (1.0, 1.0, 1.0)),
+            "probe_model.mean_diffraction_intensity=-1": lambda: setattr(pt.probe_model, "mean_diffraction_intensity", -1.0),
+            "dset.mean_diffraction_intensity=-1": lambda: setattr(pt.dset, "mean_diffraction_intensity", -1.0),
+            "dset.scan_positions_px:wrong_shape": lambda: setattr(pt.dset, "scan_positions_px", np.zeros((J + 1, 2), np.float32)),
+            "dset.scan_positions_px:3cols": lambda: setattr(pt.dset, "scan_positions_px", np.zeros((J, 3), np.float32)),
+            "dset.scan_positions_px:string": lambda: setattr(pt.dset, "scan_positions_px", "x"),
+            "dset.descan_shifts:wrong_shape": lambda: setattr(pt.dset, "descan_shifts", np.zeros((J + 1, 2), np.float32)),
+            "dset.detector_mask:wrong_shape": lambda: setattr(pt.dset, "detector_mask", np.ones((R + 1, C), np.float32)),
+            "dset.diffraction_padding:len3": lambda: setattr(pt.dset, "diffraction_padding", (1, 2, 3)),
+            "dset.probe_energy=-1": lambda: setattr(pt.dset, "probe_energy", -1.0),
+            "dset.verbose=-1": lambda: setattr(pt.dset, "verbose", -1),
+            "ptycho.obj_padding_px:len3": lambda: setattr(pt, "obj_padding_px", (1, 2, 3)),
+            "ptycho.obj_padding_px:string": lambda: setattr(pt, "obj_padding_px", "ab"),
+            "preprocess:obj_padding_len3": lambda: pt.preprocess(obj_padding_px=(1, 2, 3), **kw),
+            "preprocess:val_ratio=1.5": lambda: pt.preprocess(obj_padding_px=pad, val_ratio=1.5, **kw),
+            "preprocess:val_mode=bogus": lambda: pt.preprocess(obj_padding_px=pad, val_mode="bogus", **kw),
+            "preprocess:batch_size=0": lambda: pt.preprocess(obj_padding_px=pad, batch_size=0, **kw),
+            "ptycho.val_ratio=2": lambda: setattr(pt, "val_ratio", 2.0),
+            "ptycho.val_mode=bogus": lambda: setattr(pt, "val_mode", "bogus"),
+            "ptycho.batch_size=0": lambda: setattr(pt, "batch_size", 0),
+            "ptycho.batch_size=-3": lambda: setattr(pt, "batch_size", -3),
+            "ptycho.batch_size=str": lambda: setattr(pt, "batch_size", "many"),
+            "ptycho.verbose=-1": lambda: setattr(pt, "verbose", -1),
+            "ptycho.device=tpu": lambda: setattr(pt, "device", "tpu"),
+            "ptycho.propagators:wrong_shape": (lambda: setattr(pt, "propagators", np.ones((S + 1, R, C), np.complex64))) if S > 1 else None,
+            "ptycho.obj_fov_mask:4d": lambda: setattr(pt, "obj_fov_mask", np.ones((1, 1, 4, 4), np.float32)),
+            "ptycho.constraints:unknown_category": lambda: setattr(pt, "constraints", {"bogus": {"a": 1}}),
+            "ptycho.constraints:unknown_object_key": lambda: setattr(pt, "constraints", {"object": {"bogus_key": 1}}),
+            "ptycho.constraints:unknown_probe_key": lambda: setattr(pt, "constraints", {"probe": {"bogus_key": 1}}),
+            "ptycho.constraints:not_dict": lambda: setattr(pt, "constraints", 5),
+            "ptycho.set_obj_type(bogus)": lambda: pt.set_obj_type("bogus"),
+            "obj_model.obj_type=bogus": lambda: setattr(pt.obj_model, "obj_type", "bogus"),
+            "obj_model.sampling=negative": lambda: setattr(pt.obj_model, "sampling", (-1.0, 1.0)),
+            "obj_model.sampling=len3": lambda: setattr(pt.obj_model, "sampling", (1.0, 1.0, 1.0)),
+            "obj_model.mask:4d": lambda: setattr(pt.obj_model, "mask", np.ones((1, 1, 4, 4), np.float32)),
+            "ptycho.obj_model=not_a_model": lambda: setattr(pt, "obj_model", 5),
+            "ptycho.probe_model=not_a_model": lambda: setattr(pt, "probe_model", 5),
+            "ptycho.probe_model=wrong_roi_model": lambda: setattr(pt, "probe_model", ProbePixelated.from_array(np.ones((M, R + 2, C + 2), np.complex64), probe_params=pr._probe_params(), rng=1)),
+            "ptycho.detector_model=not_a_model": lambda: setattr(pt, "detector_model", 5),
+            "ptycho.dset=not_a_dataset": lambda: setattr(pt, "dset", 5),
+            "ptycho.logger=not_a_logger": lambda: setattr(pt, "logger", 5),
+            "object_model:thickness_count_mismatch": lambda: setattr(pt, "obj_model", ObjectPixelated.from_array(np.ones((S, H, W), np.complex64), slice_thicknesses=[10.0] * (S + 1))),
+            "object_model:negative_thickness": lambda: setattr(pt, "obj_model", ObjectPixelated.from_array(np.ones((max(S, 2), H, W), np.complex64), slice_thicknesses=-4.0)),
+            "reconstruct:loss_type=bogus": lambda: pt.reconstruct(num_iters=0, loss_type="bogus"),
+            "reconstruct:batch_size=0": lambda: pt.reconstruct(num_iters=0, batch_size=0),
+            "reconstruct:batch_size=-2": lambda: pt.reconstruct(num_iters=0, batch_size=-2),
+            "reconstruct:optimizer_params=unknown_key": lambda: pt.reconstruct(num_iters=0, optimizer_params={"bogus": {"type": "sgd", "lr": 1.0}}),
+            "reconstruct:optimizer_type=bogus": lambda: pt.reconstruct(num_iters=0, optimizer_params={"object": {"type": "bogus", "lr": 1.0}}),
+            "reconstruct:scheduler_params=unknown_type": lambda: pt.reconstruct(num_iters=0, scheduler_params={"object": {"type": "bogus"}}),
+            "reconstruct:constraints=unknown_category": lambda: pt.reconstruct(num_iters=0, constraints={"bogus": {"a": 1}}),
+            "reconstruct:device=tpu": lambda: pt.reconstruct(num_iters=0, device="tpu"),
+            "reconstruct:unknown_kw": lambda: pt.reconstruct(num_iter=0),
+        }
+        call = table[op]
+    if call is None:
+        return "not_applicable"
+    try:
+        call()
+    except Exception as e:  # any exception is a refusal
+        return f"raised:{type(e).__name__}"
+    return "accepted"
+
+
+def refused_items(tier, start):
+    """Histories with at least one refused request.  quick: every member alone, every (refused, refused) pair over the first
+    12 core members, every (core, valid event) pair.  thorough: pairs over all 15 core members, also (valid event, core),
+    (any other member, first six core) and (first six core, any other member), and every triple over the first six core
+    members and the 8 valid events that contains a refused request."""
+    r = lambda k: "refused:" + k  # noqa: E731
+    core = [r(k) for k in (REFUSED_CORE[:12] if tier == "quick" else REFUSED_CORE)]
+    valid = list(HISTORY_EVENTS)
+    hs = [[r(k)] for k in REFUSED_OPS]
+    hs += [[a, b] for a in core for b in core]
+    hs += [[a, v] for a in core for v in valid]
+    if tier != "quick":
+        hs += [[v, a] for v in valid for a in core]
+        rest = [r(k) for k in REFUSED_OPS if r(k) not in core]
+        hs += [[a, b] for a in rest for b in core[:6]] + [[a, b] for a in core[:6] for b in rest]
+        small = core[:6] + valid
+        hs += [list(h) for h in itertools.product(small, repeat=3) if any(e.startswith("refused:") for e in h)]
+    items = []
+    for b in REFUSED_BASES[tier]:
+        for h in hs:
+            items.append({"index": start + len(items), "base": b, "history": h})
+    return items
 
 
 def run_history(item, seed=0):
@@ -574,8 +751,10 @@ def run_history(item, seed=0):
     hist = item["history"]
     fails, seen = [], set()
 
+    has_refused = any(e.startswith("refused:") for e in hist)
+
     def fail(what, msg):
-        cls = {"relation": "prediction_depends_on_current_configuration_only", "what": what}
+        cls = {"relation": "refused_request_changes_nothing" if has_refused else "prediction_depends_on_current_configuration_only", "what": what}
         k = json.dumps(cls, sort_keys=True)
         if k not in seen:
             seen.add(k)
@@ -590,17 +769,31 @@ def run_history(item, seed=0):
     obj = {S0: PT.make_object(c, geo, np.random.default_rng([int(seed), 2, 900 + item["base"], 1])),
            S1: PT.make_object(PT.normalise(dict(base, slices=S1, thicknesses=C)), geo, np.random.default_rng([int(seed), 2, 900 + item["base"], 2]))}
     probes = {M: PT.make_probe(PT.normalise(dict(base, modes=M, thicknesses=A)), geo) for M in (M0, M1)}
-    cfgF = PT.normalise(dict(base, thicknesses=B))
+    # the data belong to thicknesses B (the events have to make the model right), except when the history opens with a refused
+    # request: then they belong to the build configuration A, so that "nothing changed" is judged with all four losses
+    D = list(A) if (hist and hist[0].startswith("refused:")) else list(B)
+    cfgF = PT.normalise(dict(base, thicknesses=D))
     data = PT.simulate(obj[S0], probes[M0], geo, cfgF)
     model = {"S": S0, "T": list(A), "M": M0, "loss": 0}  # reference model of the configuration
     trail = [dict(model)]
-    rec = {"index": item["index"], "base": item["base"], "history": hist, "skipped_events": 0}
+    rec = {"index": item["index"], "base": item["base"], "history": hist, "skipped_events": 0, "refused": 0, "accepted": []}
     half = np.arange(max(1, J // 2))
     stage = "build"
     try:
         pr = PT.build(cfgA, rng, obj_init=obj[S0], probe_init=probes[M0], sim=data)
         for n, ev in enumerate(hist):
             stage = f"event {n} {ev}"
+            if ev.startswith("refused:"):
+                out = refused_call(pr, ev[len("refused:"):])
+                if out == "not_applicable":
+                    rec["skipped_events"] += 1
+                elif out == "accepted":  # this tree accepts what the reference tree refuses: counted, history not judged
+                    rec["accepted"].append(ev)
+                    rec["not_judged"] = True
+                    return rec, fails
+                else:
+                    rec["refused"] += 1
+                continue
             if ev == "object_thicknesses_B_via_model_swap":
                 pr.set_object(obj[S0], thicknesses=B)
                 model.update(S=S0, T=list(B))
@@ -635,10 +828,28 @@ def run_history(item, seed=0):
         stage = "judge"
         cfg_now = PT.normalise(dict(base, slices=model["S"], modes=model["M"], thicknesses=model["T"]))
         sim_now = PT.simulate(obj[model["S"]], probes[model["M"]], geo, cfg_now)
-        is_F = model["S"] == S0 and model["T"] == list(B) and model["M"] == M0
+        is_F = model["S"] == S0 and model["T"] == D and model["M"] == M0
         rec.update(final=dict(model), final_is_data_configuration=is_F)
         full = np.arange(J)
         mean_I = float(data.sum() / J)
+        if has_refused:
+            # (a) immediately after the history -- only when every event was a refused request: a valid direct assignment on the
+            # object model is, by the library's protocol, picked up at the next reconstruct()/preprocess(), not before;
+            # (b) after derived state has been rebuilt through public calls
+            d = 0.0
+            if all(e.startswith("refused:") for e in hist):
+                with torch.no_grad():
+                    pn = pr.predict(full).detach().cpu().numpy().astype(float)
+                d = float(np.abs(pn - sim_now).max() / sim_now.max()) if pn.shape == sim_now.shape and np.isfinite(pn).all() else float("inf")
+                rec["pred_rel_immediate"] = d
+            if not d <= TOL["pred_rel"]:
+                fail("predicted_equals_simulated_immediately", f"directly after {hist}: max |predicted - simulated| / max = {d:.3g} > {TOL['pred_rel']:g} for the configuration "
+                     f"{model['S']} slices, thicknesses {model['T']}, {model['M']} mode(s)")
+            stage = "follow-up compute_propagator_arrays"
+            pr.ptycho.compute_propagator_arrays()
+            stage = "follow-up preprocess (same arguments)"
+            pr.ptycho.preprocess(obj_padding_px=tuple(c["pad"]), plot_rotation=False, plot_com=False)
+            stage = "judge"
         preds = None
         for lt in PT.LOSS_TYPES:
             pr.set_loss_type(lt)  # reconstruct(num_iters=0, loss_type=lt): what every reconstruct() call does first
@@ -688,9 +899,38 @@ def run_history(item, seed=0):
     return rec, fails
 
 
+def judge_history(item, seed=0):
+    """run_history() plus attribution: a failing history with refused requests is re-run on its proper prefixes; the shortest
+    failing prefix names the event after which things went wrong, and the class carries the refused request responsible
+    (the latest one up to that event): {"relation": "refused_request_changes_nothing", "op": ..., "what": ...}."""
+    rec, fails = run_history(item, seed=seed)
+    hist = item["history"]
+    if not fails or not any(e.startswith("refused:") for e in hist):
+        return rec, fails
+    valid_only = [e for e in hist if not e.startswith("refused:")]
+    if valid_only:
+        _r, f = run_history(dict(item, history=valid_only), seed=seed)
+        if f:  # the valid events fail on their own: the refused requests are not responsible
+            return rec, [(dict(cls, relation="prediction_depends_on_current_configuration_only"), msg + f" [the valid events alone, {valid_only}, fail as well]") for cls, msg in fails]
+    k_bad = len(hist)
+    for k in range(1, len(hist)):
+        _r, f = run_history(dict(item, history=hist[:k]), seed=seed)
+        if f:
+            k_bad = k
+            break
+    ops = [e for e in hist[:k_bad] if e.startswith("refused:")]
+    op = ops[-1][len("refused:"):] if ops else "?"
+    rec["blamed_event"] = hist[k_bad - 1]
+    return rec, [(dict(cls, op=op), msg + f" [first failing prefix ends with {hist[k_bad - 1]!r}]") for cls, msg in fails]
+
+
 def check_history(item, seed=0):
     t = Tally()
-    rec, fails = run_history(item, seed=seed)
+    rec, fails = judge_history(item, seed=seed)
+    t.extra["refused_requests_issued_and_refused"] += rec.get("refused", 0)
+    t.extra["refused_ops_accepted_by_this_tree"] += len(rec.get("accepted", []))
+    t.extra["histories_not_judged_because_a_refused_op_was_accepted"] += int(bool(rec.get("not_judged")))
+    t.extra["histories_with_refused_requests"] += int(any(e.startswith("refused:") for e in item["history"]))
     fin = rec.get("final", {})
     t.case(key=[item["base"], item["history"]], nontrivial=True, outcome=(item["base"], fin.get("S"), fin.get("T"), fin.get("M"), fin.get("loss")))
     t.extra["histories"] += 1
@@ -750,14 +990,22 @@ def run(ctx):
         exhaustive=True,
     )
     hitems, hdepth, nbases = history_items(ctx.tier)
-    hm = ctx.pmap(check_history, hitems, chunk=4, label="reconfiguration histories", seed=ctx.seed)
+    ritems = refused_items(ctx.tier, start=len(hitems))
+    hm = ctx.pmap(check_history, hitems + ritems, chunk=8, label="reconfiguration histories", seed=ctx.seed)
     ctx.coverage.update(
         evaluations=int(merged.n) - excluded + int(hm.n),
         distinct_nontrivial=nontrivial + len(hm.nontrivial),
         reconfiguration_histories={"events": list(HISTORY_EVENTS), "max_length": hdepth, "base_configurations": HISTORY_BASES[:nbases],
                                    "histories": int(hm.extra["histories"]), "distinct_final_configurations": len(hm.outcomes),
                                    "ending_in_the_data_configuration": int(hm.extra["histories_ending_in_the_data_configuration"])},
+        refused_requests={"members": list(REFUSED_OPS), "core_members_used_in_pairs": list(REFUSED_CORE), "members_used_in_triples": list(REFUSED_CORE[:6]),
+                          "base_configurations": [HISTORY_BASES[b] for b in REFUSED_BASES[ctx.tier]], "histories": len(ritems),
+                          "requests_refused": int(hm.extra["refused_requests_issued_and_refused"]),
+                          "accepted_by_this_tree_not_judged": int(hm.extra["refused_ops_accepted_by_this_tree"]),
+                          "follow_up": ["compute_propagator_arrays()", "preprocess(same arguments)", "reconstruct(num_iters=0, loss_type)"]},
     )
+    if hm.extra["refused_requests_issued_and_refused"] < len(REFUSED_OPS):
+        raise Broken("vacuous refused-request exploration: hardly any request was refused")
     if hm.extra["histories_ending_in_the_data_configuration"] < 10 or len(hm.outcomes) < 8:
         raise Broken("vacuous history exploration")
     if excluded != ndeg:
@@ -773,9 +1021,9 @@ def run(ctx):
 
 def replay(ctx, case):
     if case.get("family") == "reconfiguration_history":
-        rec, fails = run_history({"index": case["index"], "base": case["base"], "history": case["history"]}, seed=ctx.seed)
+        rec, fails = judge_history({"index": case["index"], "base": case["base"], "history": case["history"]}, seed=ctx.seed)
         print("  base:", json.dumps(HISTORY_BASES[case["base"]], sort_keys=True))
-        for k in ("history", "final", "final_is_data_configuration", "skipped_events", "pred_rel", "zero", "ratio"):
+        for k in ("history", "final", "final_is_data_configuration", "skipped_events", "refused", "accepted", "blamed_event", "pred_rel_immediate", "pred_rel", "zero", "ratio"):
             if k in rec:
                 print(f"  {k}: {rec[k]}")
         for cls, msg in fails:
